@@ -161,6 +161,32 @@ def nested_cases():
                              ["add_cb", "f0", "cb0", ["op", ["submit", "ex", "n0", inner]]],
                              ["result", "f0", 50], ["sleep", 3], ["result", "n0", 50]]],
                 "final": [["shutdown", "ex", True]], "settle": 5}))
+    # (b2) from a done-callback of a future that is ended by an *internal* thread or by a cancel:
+    #      timeout firing, poll yield, retry exhaustion, user cancel, cancel behind the back, shutdown sweep
+    ends = {
+        "timeout-fires": ([{"kind": "timeout", "t": 0.5}], [["sleep", 1.0]]),
+        "timeout-fires+map": ([{"kind": "timeout", "t": 0.5}, {"kind": "map", "fn": [["app", "m"]], "err": None}], [["sleep", 1.0]]),
+        "timeout-fires+retry": ([{"kind": "retry", "policy": {"type": "exc", "max_attempts": 2, "sleep": 0.25}}, {"kind": "timeout", "t": 0.5}], [["sleep", 1.0]]),
+        "throttle+timeout-fires": ([{"kind": "throttle", "count": 1}, {"kind": "timeout", "t": 0.5}], [["sleep", 1.0]]),
+        "poll-yields": ([{"kind": "poll", "interval": 0.5}], [["run", "ex", 0], ["sleep", 1.0]]),
+        "retry-exhausted": ([{"kind": "retry", "policy": {"type": "exc", "max_attempts": 2, "sleep": 0.25}}], [["run", "ex", 0], ["sleep", 0.5], ["run", "ex", 1], ["sleep", 0.5]]),
+        "user-cancel/retry": ([{"kind": "retry", "policy": {"type": "exc", "max_attempts": 2, "sleep": 0.25}}], [["cancel", "f0"]]),
+        "user-cancel/throttle-queued": ([{"kind": "throttle", "count": 0}], [["cancel", "f0"]]),
+        "user-cancel/poll": ([{"kind": "poll", "interval": 0.5, "per_sub": {"f0.fn": {"after": None}}}], [["run", "ex", 0], ["sleep", 0.25], ["cancel", "f0"]]),
+        "user-cancel/map": ([{"kind": "map", "fn": [["app", "m"]], "err": None}], [["cancel", "f0"]]),
+        "external-cancel/map": ([{"kind": "map", "fn": [["app", "m"]], "err": None}], [["complete", "ex.base.j0", "cancel"]]),
+        "external-cancel/retry": ([{"kind": "retry", "policy": {"type": "exc", "max_attempts": 2, "sleep": 0.25}}], [["complete", "ex.base.j0", "cancel"]]),
+        "shutdown-sweep/cos": ([{"kind": "map", "fn": None, "err": None}, {"kind": "cos"}], [["shutdown", "ex", True]]),
+        "shutdown-sweep/cos+timeout": ([{"kind": "timeout", "t": 5000.0}, {"kind": "cos"}], [["shutdown", "ex", True]]),
+    }
+    for ename, (layers, how) in sorted(ends.items()):
+        fail = [["raise", "E0"]] if "retry-exhausted" in ename else [["tag"]]
+        out.append(("callback-internal/" + ename, {
+            "setup": [["build", "ex", {"base": {"kind": "manual"}, "layers": layers}]],
+            "threads": [[["submit", "ex", "f0", {"script": fail}],
+                         ["add_cb", "f0", "cb0", ["op", ["submit", "ex", "n0", inner]]], ["sleep", 0.01]] + how +
+                        [["result", "f0", 5], ["sleep", 1.0]]],
+            "final": ([] if "shutdown" in ename else [["shutdown", "ex", True]]), "settle": 2}))
     for bname, base in (("sync", {"kind": "sync"}), ("pool1", {"kind": "pool", "workers": 1}), ("pool2", {"kind": "pool", "workers": 2})):
         for extra_name, extra in (("", []), ("+retry", [{"kind": "retry", "policy": {"type": "exc", "max_attempts": 2, "sleep": 0.25}}]),
                                   ("+throttle", [{"kind": "throttle", "count": 2}]), ("+timeout", [{"kind": "timeout", "t": 5000.0}]),
@@ -239,6 +265,8 @@ def case_strategy():
             st.builds(lambda i, sc: ["submit", "ex", "f%d_%d" % (tid, i), {"script": sc}], st.integers(0, 2), scripts),
             st.sampled_from(names).map(lambda n: ["cancel", n]),
             st.sampled_from(names).map(lambda n: ["add_cb", n, "cb_%d_%s" % (tid, n)]),
+            st.sampled_from(names).map(lambda n: ["add_cb", n, "cbn_%d_%s" % (tid, n),
+                                                  ["op", ["submit", "ex", "n_%d_%s" % (tid, n), {"script": [["tag"]]}]]]),
             st.sampled_from(names).map(lambda n: ["result", n, 20]),
         )
         if manual:
@@ -250,7 +278,7 @@ def case_strategy():
 
     @st.composite
     def cases(draw):
-        stack = draw(gen.stacks(bases=("sync", "pool", "manual"), max_depth=4, block=True))
+        stack = draw(gen.stacks(bases=("sync", "pool", "manual"), max_depth=4, block=True, long_timeouts=draw(st.booleans())))
         manual = stack["base"]["kind"] == "manual"
         if manual:
             for l in stack["layers"]:
